@@ -82,6 +82,7 @@ class Ctx:
         self.gendriver = None
         self.genbdriver = None
         self.genmdriver = None
+        self.genqdriver = None
         self.theorems = []
         self.axioms = {}
         self.extra = {}
@@ -102,6 +103,8 @@ class Ctx:
                 self.genbdriver = leanio.GenBDriver()
             if "mcwalk" in ties and os.environ.get("VERIF_TIE_OK_mcwalk") == "1" and os.path.exists(leanio.GENMDRIVER):
                 self.genmdriver = leanio.GenMDriver()
+            if "query" in ties and os.environ.get("VERIF_TIE_OK_query") == "1" and os.path.exists(leanio.GENQDRIVER):
+                self.genqdriver = leanio.GenQDriver()
             self.lean_ok = self.driver is not None
             return
         ok, log, secs = leanio.build()
@@ -150,6 +153,8 @@ class Ctx:
                 self.genbdriver = leanio.GenBDriver()
             if tie["ok"] and tname == "mcwalk" and os.path.exists(leanio.GENMDRIVER):
                 self.genmdriver = leanio.GenMDriver()
+            if tie["ok"] and tname == "query" and os.path.exists(leanio.GENQDRIVER):
+                self.genqdriver = leanio.GenQDriver()
         if problems:
             self.lean_problem = problems
         if ok and os.path.exists(leanio.DRIVER):
@@ -173,6 +178,12 @@ class Ctx:
         if self.genmdriver is None:
             return None
         return self.genmdriver.ask(jsonable(req))
+
+    def genq(self, req):
+        """run the TRANSLATED Provenance.query (lean/GenQ); None when it could not be translated / proved"""
+        if self.genqdriver is None:
+            return None
+        return self.genqdriver.ask(jsonable(req))
 
     def model(self, req):
         """ask the Lean model; None when the model cannot be built."""
@@ -296,6 +307,8 @@ class Ctx:
             self.genbdriver.close()
         if self.genmdriver:
             self.genmdriver.close()
+        if self.genqdriver:
+            self.genqdriver.close()
         shutil.rmtree(self.work, ignore_errors=True)
 
 
